@@ -6,8 +6,8 @@ import (
 )
 
 func getSliceProperty[TPropertyType any](value *any, targetType reflect.Type) (*TPropertyType, error) {
-	// Ensure the value is also a slice
-	if reflect.TypeOf(*value).Kind() != reflect.Slice {
+	// Ensure the value is also a slice (a JSON5 null has no type at all)
+	if *value == nil || reflect.TypeOf(*value).Kind() != reflect.Slice {
 		return nil, fmt.Errorf("value %v cannot be converted to type %s", value, targetType.String())
 	}
 
@@ -20,6 +20,9 @@ func getSliceProperty[TPropertyType any](value *any, targetType reflect.Type) (*
 	// Iterate through the source slice and convert each element
 	for i := 0; i < sourceSlice.Len(); i++ {
 		sourceElem := sourceSlice.Index(i).Interface()
+		if sourceElem == nil {
+			return nil, fmt.Errorf("element at index %d is null and cannot be converted to type %s", i, targetElemType.String())
+		}
 		sourceElemValue := reflect.ValueOf(sourceElem)
 
 		// Check if the source element can be converted to the target element type
